@@ -216,10 +216,26 @@ func runC15(c *Ctx) {
 
 	// ---- R3 ---------------------------------------------------------------------------------
 	{
-		isAllowed := c.Fn("R3-preflight", "(*main.OAuthProxy).IsAllowedRequest")
+		isAllowed := c.bypassEntry("R3-preflight")
 		gas := c.Fn("R3-preflight", "(*main.OAuthProxy).getAuthenticatedSession")
-		if isAllowed != nil && gas != nil {
+		if gas != nil {
 			runC01R4Rule(c, "R3-preflight", isAllowed, gas)
+			if isAllowed == nil {
+				// decided in place: walk getAuthenticatedSession's session-less successes
+				c.Walk("R3-preflight", gas, func(p *walk.Path) {
+					ev, ok := p.ReturnDV(1)
+					sv, ok2 := p.ReturnDV(0)
+					if !ok || !ok2 || !DefinitelyNil(p, ev, p.End()) {
+						return
+					}
+					if n, k := p.Nil(sv, p.End()); k && !n {
+						return // authenticated return
+					}
+					if how, ok := c.bypassFact("R3-preflight", p, p.End()); ok {
+						c.ok("R3-preflight", "true-via|in-place", p.Exit, how)
+					}
+				})
+			}
 		}
 	}
 
